@@ -21,6 +21,11 @@ for sid in seeds:
         continue
     mp = os.path.join(d, "meta.json")
     meta = json.load(open(mp)) if os.path.exists(mp) else {"property": sid.split("-")[0]}
+    if meta.get("neutralised_by"):
+        # a later fix in /repo made this change harmless (it can no longer break the property): kept for the
+        # record, not replayed
+        print(sid, "neutralised by", meta["neutralised_by"], flush=True)
+        continue
     checks = meta.get("run_checks") or [meta["property"]]
     res = {}
     for c in checks:
